@@ -1,5 +1,5 @@
 """Bounded exhaustive mutation of small seed files (DESIGN 1.6 E7): every byte-prefix truncation, every token replaced
-by every member of an adversarial alphabet, every line deleted / duplicated, one extra token per line, one extra
+by every member of an adversarial alphabet, every integer token by every integer in -2..30, every line deleted / duplicated, one extra token per line, one extra
 line; pairs of token replacements in the thorough tier (fixed order, so that a covered prefix can be stated)."""
 import itertools, re
 
@@ -10,7 +10,7 @@ def tokens(text):
     return [(m.start(), m.end()) for m in re.finditer(r'\S+', text)]
 
 
-def mutants(text, pairs=False, max_prefix=4000):
+def mutants(text, pairs=False, max_prefix=4000, int_sweep=True):
     seen = set()
 
     def emit(tag, t):
@@ -25,6 +25,11 @@ def mutants(text, pairs=False, max_prefix=4000):
     for i, (a, b) in enumerate(toks):
         for r in ALPHABET:
             out += emit('tok%d=%r' % (i, r), text[:a] + r + text[b:])
+        # integer tokens (identifiers, counts, enumeration values): every small integer, so that each bound of each
+        # enumeration or count check is crossed by exactly one
+        if int_sweep and re.fullmatch(r'-?\d+', text[a:b]):
+            for v in range(-2, 31):
+                out += emit('tok%d=%d' % (i, v), text[:a] + str(v) + text[b:])
         out += emit('tok%d+dup' % i, text[:b] + ' ' + text[a:b] + text[b:])
         # equal neighbours (degenerate ranges, repeated values): the token takes the value of the previous / next one
         if i > 0:
